@@ -221,7 +221,7 @@ ADD = {
  "C04": " Added: the case FixChoice implies is a plain case (no list attributes, type, rpc part, key or errors); every augment of a pass is merged, refused with an error, reported or kept (ghost call counters), never silently skipped; the stand-in walks every module by object (two revisions of one name are two trees), shorthand lists and leaf-lists under choices, augments whose body is a missing grouping, bare actions.",
  "C05": " Added: a fixed set with the same identity in two revisions of one module (an open finding: KNOWN-FINDING line, see C11). errorSort is under contract: every sorted error is kept or deeply equal to the one kept last, what is kept stays, a list of at most one error comes back as it is (sort.Sort and reflect.DeepEqual assumed). Augments are applied module by module in the order of the modules' full names (fix recorded); the stand-in loads sets in which two modules bring the same node to one target, in every load order, and compares what is refused.",
  "C06": " Added: fixed cases for the extension list of a uses entry (own array per use) and for a prefix that only an included submodule binds (must be an error). Repaired on the way: a grouping defined inside grouping k may use k; a submodule uses the groupings of its module.",
- "C07": " Added: merge is called only when none of the augment's names is taken in the target (never half applied; taken / refuse under contract), not for anydata / anyxml targets; every augment of a pass is merged, refused, reported or kept (ghost call counters). Process's augment loops are under contract as well: every module still listed gets a pass in every round, is dropped from the list exactly when none of its augments was left over, and what is left at the end gets the pass that reports.",
+ "C07": " Added: merge is called only when none of the augment's names is taken in the target (never half applied; taken / refuse under contract), not for anydata / anyxml targets; every augment of a pass is merged, refused, reported or kept (ghost call counters). Process's augment loops are under contract as well: every module still listed gets a pass in every round, is dropped from the list exactly when none of its augments was left over, and what is left at the end gets the pass that reports. The rounds end only when no module with augments is left or after a whole round that applied nothing (exit_ensures / break_ensures on the retry loop).",
  "C08": " Added: the loop may also write the rpc input/output of the target's parent (not-supported on an rpc's input or output); fixed cases for that and for two revisions of one deviating module (both applied, in every run). Now also proved: the values written by the loop (config, mandatory, defaults on replace / add / delete, element bounds, units, type) are those of the deviate statement, per iteration. writtenBefore orders by line and then by column (two deviate statements on one line are in written order).",
  "C09": " Added: identityref look-ups and the foreign-name look-up are pinned by call-site assertions (the right function, from the right module, for the type statement itself). From a submodule the binding step also reaches the module it belongs to and that module's submodules (repaired defect; the former open finding is closed).",
  "C11": " Added: identityref types (direct and through typedefs) look their base up with findIdentityBase from the module they are written in (call-site assertions); the stand-in has identityref leaves in every module and random derivation rings with ordinary derivations around them, 6 runs each; one open finding (identities of two revisions of one module collide) with its bounded case. A derivation cycle is reported: an identity among its own derivations has an error appended before the list is stored (call-site assertion and loop invariant in resolveIdentities).",
